@@ -27,13 +27,29 @@ def log(*a):
 
 
 def build_harness():
+    """rebuild the executor against the repository's current working tree (offline).
+    Development only: VERIF_REPO=<dir> builds a private copy of the harness against another checkout
+    (a scratch worktree carrying a seeded change) and leaves /verif/evidence alone."""
+    global RTCPV
     env = dict(os.environ, CARGO_NET_OFFLINE="true")
+    repo = os.environ.get("VERIF_REPO", "/repo")
+    hdir = HARNESS
+    if os.path.realpath(repo) != "/repo":
+        hdir = os.path.join(ROOT, "work", "harness-" + hashlib.sha1(repo.encode()).hexdigest()[:10])
+        if not os.path.isdir(hdir):
+            os.makedirs(hdir)
+            shutil.copytree(os.path.join(HARNESS, "src"), os.path.join(hdir, "src"))
+            shutil.copytree(os.path.join(HARNESS, ".cargo"), os.path.join(hdir, ".cargo"))
+            shutil.copy(os.path.join(HARNESS, "Cargo.lock"), hdir)
+            toml = open(os.path.join(HARNESS, "Cargo.toml")).read().replace('path = "/repo"', f'path = "{repo}"')
+            open(os.path.join(hdir, "Cargo.toml"), "w").write(toml)
+        RTCPV = os.path.join(hdir, "target", "release", "rtcpv")
     t0 = time.time()
-    r = subprocess.run(["cargo", "build", "--release", "--offline"], cwd=HARNESS, env=env,
+    r = subprocess.run(["cargo", "build", "--release", "--offline"], cwd=hdir, env=env,
                        stdout=subprocess.PIPE, stderr=subprocess.STDOUT, text=True)
     if r.returncode != 0:
         raise ToolError("cargo build failed:\n" + r.stdout[-4000:])
-    log(f"[build] executor rebuilt against /repo working tree in {time.time() - t0:.1f}s")
+    log(f"[build] executor rebuilt against {repo} working tree in {time.time() - t0:.1f}s")
 
 
 def tlc_cmd(module, cfg, metadir, workers=1, xmx="3g", extra=()):
@@ -75,9 +91,25 @@ def validate_chunk(k, sessions, props, work, timeout):
             for op in s:
                 f.write(json.dumps(op, separators=(",", ":")) + "\n")
                 n += 1
+    execute(script, trace, k)
+    bad, states, trans = tlc_validate(trace, n, props, work, k, timeout)
+    out_bad = []
+    for (line, op, cls) in bad:
+        si = max(i for i, st in enumerate(starts) if st <= line)     # session containing this line
+        out_bad.append((si, line - starts[si], op, cls))
+    return {"bad": out_bad, "events": n, "states": states, "transitions": trans, "trace": trace, "starts": starts}
+
+
+def execute(script, trace, k=0):
+    """run a script on the real crate; the recorded trace is written to `trace`"""
     r = subprocess.run([RTCPV, "exec", script, trace], stdout=subprocess.PIPE, stderr=subprocess.PIPE, text=True)
     if r.returncode != 0:
         raise ToolError(f"executor failed on chunk {k} (exit {r.returncode}): {r.stderr[-2000:]}")
+
+
+def tlc_validate(trace, n, props, work, k, timeout):
+    """validate a recorded trace of n events against Trace.tla with the conjuncts of `props` selected.
+    returns ([(line, op, class)] of nonconforming events, distinct states, states generated)"""
     cfg = os.path.join(work, f"trace{k}.cfg")
     write_trace_cfg(cfg, props)
     env = dict(os.environ, TRACE=trace)
@@ -94,15 +126,10 @@ def validate_chunk(k, sessions, props, work, timeout):
         with open(keep, "w") as f:
             f.write(out)
         raise ToolError(f"TLC did not reach the end of chunk {k} ({n} events); output kept at {keep}:\n" + out[-3000:])
-    bad = []
-    for m in re.finditer(r'<<"NONCONFORMING", (\d+), "([a-z_0-9]+)", "([^"]*)">>', out):
-        line = int(m.group(1))
-        # session containing this line
-        si = max(i for i, st in enumerate(starts) if st <= line)
-        bad.append((si, line - starts[si], m.group(2), m.group(3)))
+    bad = [(int(m.group(1)), m.group(2), m.group(3))
+           for m in re.finditer(r'<<"NONCONFORMING", (\d+), "([a-z_0-9]+)", "([^"]*)">>', out)]
     states, trans = parse_tlc_counts(out)
-    # a few lines of the recorded trace as samples, and the class counts for the evidence
-    return {"bad": bad, "events": n, "states": states, "transitions": trans, "trace": trace, "starts": starts}
+    return bad, states, trans
 
 
 def chunk_sessions(sessions, max_bytes, max_events):
@@ -166,6 +193,14 @@ def summarize_trace(path, prop, seen, counts, samples):
                 continue
             op = e.get("op")
             counts[op] = counts.get(op, 0) + 1
+            if prop == "C12" and op == "parse_all":
+                # the (source variant, target type) conversion matrix actually exercised
+                r = e.get("res", {})
+                if isinstance(r, dict) and r.get("t") == "ok":
+                    v = r["view"].get("variant")
+                    for t in (r["view"].get("conv") or {}):
+                        key = f"matrix:{v}->{t}"
+                        counts[key] = counts.get(key, 0) + 1
             if pred(e):
                 e.pop("sid", None)
                 h = hashlib.blake2b(line.encode(), digest_size=8).digest()
@@ -227,6 +262,8 @@ def save_replay(prop, session):
 
 
 def write_evidence(prop, tier, seed, stats, wall, nviol, extra):
+    if os.path.realpath(os.environ.get("VERIF_REPO", "/repo")) != "/repo":
+        return          # development run against another checkout: not evidence
     os.makedirs(os.path.join(ROOT, "evidence"), exist_ok=True)
     cov = {
         "states": stats["states"],
